@@ -8,9 +8,9 @@ from .core import Repo, VIOLATION, ERROR, DISCHARGED, KNOWN
 
 def _apply(repo_src, mod, old, new):
     s = repo_src[mod]
-    if s.count(old) != 1:
+    if s.count(old) < 1:
         return None
-    t = s.replace(old, new)
+    t = s.replace(old, new, 1)
     try:
         ast.parse(t)
     except SyntaxError:
